@@ -5,6 +5,7 @@ import (
 	"go/token"
 	"go/types"
 	"reflect"
+	"regexp"
 	"sort"
 	"strings"
 
@@ -34,6 +35,7 @@ func ruleC07(r *Report) {
 	checkEscape(r, p, "C07.escape", func(fn *ssa.Function) bool {
 		return fn.Signature.Recv() != nil && (isMethodOf(fn, "IdpAuthnRequest") || isMethodOf(fn, "IdentityProvider")) || isElementSerialiser(p, fn)
 	})
+	safely(r, func() { checkNoCDATA(r, p, "C07.escape") })
 	r.Rule("C07.sig-methods", "the SP's signature validator leaves the choice of acceptable signature and digest algorithms to goxmldsig (it does not read SignatureMethod/DigestMethod/Algorithm itself): every method the IdP can be configured with verifies", 1)
 	safely(r, func() { checkNoAlgorithmFilter(r, p, "C07.sig-methods") })
 	// "every registered SP metadata with an encryption certificate": the IdP encrypts to the certificate registered now
@@ -44,6 +46,9 @@ func ruleC07(r *Report) {
 		checkNoProcessStateFor(r, p, sel, "C08.current-key", "the encryption certificate does not depend on state the library keeps between calls",
 			"the certificate selection consults", "assertions keep being encrypted to the certificate seen first after the SP registered a new one, which the SP's current key cannot open")
 	})
+	// "every registered SP metadata": the key-transport encrypter refuses a certificate for nothing but its type
+	r.Rule("C07.any-certificate", "the RSA key-transport encrypter turns a certificate away only for not being an X.509 certificate with an RSA key: no condition of (xmlenc.RSA).Encrypt reads another property of the certificate (key usage, validity, extensions), which the SP's ability to decrypt does not depend on", 1)
+	safely(r, func() { checkAnyCertificate(r, p, "C07.any-certificate") })
 	// the request leg of the round trip: the IdP does not turn away what this library's SP sends (C05.accept, borrowed)
 	r.Rule("C07.request-leg", "the IdP's validator accepts a fresh, well-addressed request from a registered SP, signed or not, over either binding (the accept scenarios of C05, borrowed): without that no response is produced for the configuration", 1)
 	borrowAccept(r, "C07.request-leg")
@@ -1387,5 +1392,46 @@ func checkNoAlgorithmFilter(r *Report, p *Prog, rule string) {
 	}
 	if n == 0 {
 		panic(unresolved{"role SP signature validator"})
+	}
+}
+
+var parsedCertField = regexp.MustCompile(`x509\.ParseCertificate#[^,]*#0\.`)
+
+// checkAnyCertificate: C07.any-certificate. The conditions of the returns of (xmlenc.RSA).Encrypt, with the unexported
+// error-returning helpers of the package inlined, mention the certificate argument only in type tests.
+func checkAnyCertificate(r *Report, p *Prog, rule string) {
+	fns := []*ssa.Function{p.MustFunc("xmlenc", "RSA", "Encrypt"), p.MustFunc("saml", "IdpAuthnRequest", "MakeAssertionEl")}
+	if sel, _ := encCertSelector(p); sel != nil {
+		fns = append(fns, sel)
+	}
+	n := 0
+	for _, fn := range fns {
+		fn := fn
+		a := NewAnalysis(p)
+		a.Inline = func(f *ssa.Function) bool {
+			return f.Pkg == fn.Pkg && f != fn && p.InLibrary(f) && (f.Object() == nil || !f.Object().Exported()) && errIndex(f) >= 0
+		}
+		fc := a.Ctx(fn)
+		fc.ensureConds()
+		r.Fn(p.FnName(fn))
+		for _, ret := range fc.Returns() {
+			n++
+			var foreign []string
+			for _, nm := range a.B.Support(fc.Cond(ret.Block())) {
+				// the certificate argument of the encrypter, or a field of what x509.ParseCertificate returned
+				if !strings.Contains(nm, "x509.Certificate)") && !parsedCertField.MatchString(nm) {
+					continue
+				}
+				if ai := a.AtomIn(fn, nm); ai != nil && ai.Kind == "typeis" {
+					continue
+				}
+				foreign = append(foreign, nm)
+			}
+			sort.Strings(foreign)
+			r.Check(len(foreign) == 0, rule, p.FnName(fn)+": the certificate is tested for its type only", p.InstrPos(ret), "no atom of the return's condition reads the certificate", "the outcome depends on "+strings.Join(foreign, ", ")+": an SP registered with such a certificate, whose private key decrypts as well as any, gets no response")
+		}
+	}
+	if n == 0 {
+		r.Undecided(rule, "returns of the encrypting functions", "-", "no return found")
 	}
 }
